@@ -37,6 +37,8 @@ def append (s : GoSlice α) (v : α) : GoSlice α :=
 /-- `copy(dst, src)`: the first `min(len(dst), len(src))` elements -/
 def copy (dst src : GoSlice α) : GoSlice α :=
   { dst with arr := Array.ofFn (n := dst.arr.size) (fun i => if h : i.val < src.arr.size then src.arr[i.val] else dst.arr[i]) }
+/-- `for i := range s { s[i] = v }` -/
+def fill (s : GoSlice α) (v : α) : GoSlice α := { s with arr := Array.replicate s.arr.size v }
 /-- `s[:hi]` for `hi ≤ len(s)` (re-slicing into the hidden capacity is refused) -/
 def «prefix» (s : GoSlice α) (hi : Int) : Option (GoSlice α) :=
   if 0 ≤ hi ∧ hi.toNat ≤ s.arr.size then some ⟨s.arr.extract 0 hi.toNat, s.cap⟩ else none
@@ -48,7 +50,12 @@ variable {α : Type}
 def get (a : Array α) (i : Nat) : Option α := a[i]?
 def set (a : Array α) (i : Nat) (v : α) : Option (Array α) :=
   if i < a.size then some (a.setIfInBounds i v) else none
+def fill (a : Array α) (v : α) : Array α := Array.replicate a.size v
 end GoArr
+
+/-- a value of an interface type (`any`): `none` = nil, `some t` = a non-nil value, identified by
+    the token `t` (what it is or points to is not modelled) -/
+abbrev GoAny := Option Nat
 
 /-- an `int` used as an index: negative panics -/
 def GoInt.toIndex (i : Int) : Option Nat := if 0 ≤ i then some i.toNat else none
